@@ -202,6 +202,12 @@ func checkC08(c *CaseC08, fl *Fails) {
 	ids := spelledExt(c.Boxes, c.Spell)
 	got, err := operated.GetNspatialIdsAroundVoxcels(ids, c.HL, c.VL)
 	if err != nil {
+		if c.Spell != 0 {
+			// a library that rejects a non-canonical spelling ("+1", "007", "-0") with an error does not break the
+			// property (it quantifies over valid IDs; only the canonical decimal spelling is certainly one)
+			Count("spelled_input_rejected", 1)
+			return
+		}
 		fl.Add("error", "GetNspatialIdsAroundVoxcels(%v,%d,%d): %v", ids, c.HL, c.VL, err)
 		return
 	}
